@@ -170,9 +170,19 @@ func runC12(ctx *core.Ctx) {
 		if r.Intn(4) == 0 {
 			ops = append(ops, spec.Op{K: spec.KSwitch, Names: []string{gen.Pick(r, []string{spec.SwNoFollow, spec.SwNoReferrerFQ, spec.SwTargetBlank})}, B: true})
 		}
+		// the calls above commute (every switch-like call here only ever sets its settings to one value), so
+		// any call order must give the same policy: options first, rules last, anything between
+		if r.Intn(3) == 0 {
+			r.Shuffle(len(ops)-1, func(i, j int) { ops[1+i], ops[1+j] = ops[1+j], ops[1+i] })
+		}
+		// the zero value of Policy is a valid starting point too (no default tables)
+		if r.Intn(6) == 0 {
+			ops[0] = spec.Op{K: spec.KZero}
+		}
 		env := NewEnv(ops)
 		lc := core.LocalCounts{}
 		lc["policies"]++
+		lc["policies:base="+ops[0].K]++
 		for i := 0; i < perPol; i++ {
 			el := []string{"audio", "img", "link", "video", "iframe", "iframe", "iframe", "source", "a"}[r.Intn(9)]
 			nd := &gen.Node{Name: el, NoEnd: r.Intn(2) == 0}
